@@ -180,6 +180,13 @@ def sources(gm):
     return ver, origin, c["src/lib.rs"].decode("utf-8"), c["src/types.rs"].decode("utf-8")
 
 
+def external_sources(gm):
+    """for tools/inventory.py: the third-party files translated here, as (label, path)"""
+    ver, cks = lock_entry(gm.read("Cargo.lock"), "Cargo.lock")
+    d = os.environ.get("VERIF_UTF8PARSE_SRC") or locate(ver, cks)[0]
+    return [("extern/%s-%s/src/%s" % (CRATE, ver, f), os.path.join(d, "src", f)) for f in ("lib.rs", "types.rs")]
+
+
 # -- vocabulary ---------------------------------------------------------------------------------------------
 
 def f_from_u32_unchecked(em, e, env, k):
@@ -309,8 +316,13 @@ def f_pa_receiver_new(em, e, env, k):
         raise EmitError("VtUtf8Receiver(..): expected `&mut <variable>`")
     name = a.e.segs[0]
     v = env.get(name)
-    if v is None or v.ty != OPT_CHAR:
+    if v is None or v.ty not in (OPT_CHAR, ("opt", ("unknown",))):
         raise EmitError("VtUtf8Receiver(&mut %s): not an Option<char> variable (%r)" % (name, v and v.ty))
+    if v.ty != OPT_CHAR:
+        # `let mut c = None;`: the field type of VtUtf8Receiver (checked against the struct) decides the element type
+        from rs2v.emit import Var
+        env = env.copy()
+        env.vars[name] = Var(v.coq, OPT_CHAR, v.mut, v.decl)
     return k("tt", ("borrow", name, ("struct", "VtUtf8Receiver")), env)
 
 
@@ -367,8 +379,6 @@ PA_VOCAB = {
         "AsciiParser": {"coq": "unit", "var": "a", "fields": {}},
     },
     "type_alias": {"Parser": ("coq", "u8parser")},
-    # `let mut c = None;` in Utf8Parser::add: the function's return type
-    "local_types": {"Utf8Parser::add": {"c": OPT_CHAR}},
     "fns": {"VtUtf8Receiver": f_pa_receiver_new},
     "methods": {("coq", "advance"): m_pa_advance},
     "opaque": {},
